@@ -14,13 +14,13 @@ type halfPipe struct {
 	mu      sync.Mutex
 	cond    *sync.Cond
 	buf     []byte
-	total   int   // bytes ever written
-	wclosed bool  // writer finished: reads return endErr once the buffer is drained
-	endErr  error // io.EOF or a failure
-	rclosed bool  // reader side closed: reads fail immediately, writes fail
-	chunk   int   // max bytes per Read (0 = unlimited)
-	stall   bool  // writes block forever (zero receive window) until closed
-	maxBuf  int   // when >0, writes block while len(buf) >= maxBuf
+	total   int    // bytes ever written
+	wclosed bool   // writer finished: reads return endErr once the buffer is drained
+	endErr  error  // io.EOF or a failure
+	rclosed bool   // reader side closed: reads fail immediately, writes fail
+	chunk   int    // max bytes per Read (0 = unlimited)
+	stall   bool   // writes block forever (zero receive window) until closed
+	maxBuf  int    // when >0, writes block while len(buf) >= maxBuf
 	hook    func() // called at the start of every Write (schedule perturbation)
 }
 
@@ -132,11 +132,11 @@ func newTransport() (*memConn, *rawEnd) {
 	return c, &rawEnd{c: c}
 }
 
-func (r *rawEnd) Send(p []byte)                 { r.c.in.Write(p) }
-func (r *rawEnd) End(err error)                 { r.c.in.finish(err) }
-func (r *rawEnd) Read(p []byte) (int, error)    { return r.c.out.Read(p) }
-func (r *rawEnd) LibClosed() <-chan struct{}    { return r.c.closed }
-func (r *rawEnd) SetChunk(n int)                { r.c.in.mu.Lock(); r.c.in.chunk = n; r.c.in.mu.Unlock() }
+func (r *rawEnd) Send(p []byte)              { r.c.in.Write(p) }
+func (r *rawEnd) End(err error)              { r.c.in.finish(err) }
+func (r *rawEnd) Read(p []byte) (int, error) { return r.c.out.Read(p) }
+func (r *rawEnd) LibClosed() <-chan struct{} { return r.c.closed }
+func (r *rawEnd) SetChunk(n int)             { r.c.in.mu.Lock(); r.c.in.chunk = n; r.c.in.mu.Unlock() }
 func (r *rawEnd) Stall(on bool) {
 	r.c.out.mu.Lock()
 	r.c.out.stall = on
